@@ -65,6 +65,7 @@ type Transport struct {
 	reconnector          Connector
 	transport            transport.Transport
 	mu                   sync.Mutex
+	peerClosed           bool // the peer closed the current connection normally: no more redials (guarded by mu)
 	maxReconnectAttempts int
 	reconnectInterval    time.Duration
 
@@ -268,14 +269,17 @@ func (r *Transport) readLoop() {
 				if errors.Is(err, errors.ErrConnectionNormalClose) {
 					r.mu.Lock()
 					current := tr == r.transport
+					if current {
+						// the peer closed normally: no redial - also not by the write loop, whose new connection nobody
+						// would read (what was read before this is still handed out, then Read fails)
+						r.peerClosed = true
+					}
 					r.mu.Unlock()
 					if !current {
 						// the connection this read was pending on has been replaced (a redial closes the old one):
 						// reading goes on with the new one
 						continue
 					}
-					// the peer closed normally: no redial, and then writes must not go on being accepted either
-					r.cancel()
 					return
 				}
 
@@ -392,7 +396,7 @@ func (r *Transport) reconnect(old transport.Transport) error {
 		return nil
 	}
 
-	if r.closed() {
+	if r.closed() || r.peerClosed {
 		return errors.ErrConnectionClosed
 	}
 	if err := old.Close(); err != nil {
